@@ -10,6 +10,7 @@ see an exception; no deadlock.
 import copy
 import dataclasses
 import inspect
+import itertools
 
 from hypothesis import strategies as st
 
@@ -252,7 +253,78 @@ def seq_case(draw):
     return {"kind": "seq", "world": wd, "trigger": src.pick(TRIGGERS)}
 
 
+# ---------------------------------------------------------------------------
+# first use through a subclass of TWO lazily bootstrapped spec classes (plain or decorated subclass), every order of uses
+
+MB_USES = ["P()", "P(a=5,b=6)", "A()", "A(a=7)", "B()", "B(b=3)", "meta:A", "meta:B", "meta:P", "fields:B"]
+
+
+def mb_configs():
+    for bstyle in ("lit", "attr", "field"):
+        for sub in ("plain", "spec"):
+            for new_on in (None, "A", "B"):
+                yield {"bstyle": bstyle, "sub": sub, "new_on": new_on}
+
+
+def mb_run(cfg, uses, eager):
+    from spec_classes import Attr, spec_class
+
+    def mk_new(label):
+        def __new__(cls, *args, **kwargs):
+            inst = object.__new__(cls)
+            inst.__dict__[f"made_by_{label}"] = True
+            return inst
+        return __new__
+
+    a_ns = {"__annotations__": {"a": int}, "a": 1, "__module__": "vf.generated"}
+    b_default = {"lit": 2, "attr": Attr(default=2), "field": dataclasses.field(default=2)}[cfg["bstyle"]]
+    b_ns = {"__annotations__": {"b": int}, "b": b_default, "__module__": "vf.generated"}
+    if cfg["new_on"] == "A":
+        a_ns["__new__"] = mk_new("A")
+    if cfg["new_on"] == "B":
+        b_ns["__new__"] = mk_new("B")
+    A = spec_class(bootstrap=eager)(type("A", (), a_ns))
+    B = spec_class(bootstrap=eager)(type("B", (), b_ns))
+    P = type("P", (A, B), {"__module__": "vf.generated"})
+    if cfg["sub"] == "spec":
+        P = spec_class(bootstrap=eager)(P)
+    env_ = {"A": A, "B": B, "P": P}
+    out = []
+    for u in uses:
+        try:
+            if u.startswith("meta:"):
+                out.append(sorted(env_[u[5:]].__spec_class__.attrs))
+            elif u.startswith("fields:"):
+                out.append(sorted(f.name for f in dataclasses.fields(env_[u[7:]])))
+            else:
+                inst = eval(u, dict(env_))  # noqa: S307 - one of the fixed strings above
+                out.append((type(inst).__name__, sorted(inst.__dict__.items()), repr(inst)))
+        except (TypeError, ValueError, AttributeError, RuntimeError) as e:
+            out.append(("raise", type(e).__name__))
+    desc = {}
+    for n, c in env_.items():
+        md = c.__spec_class__
+        desc[n] = (sorted(md.attrs), md.owner.__name__, sorted(k for k in vars(c) if k.startswith(("with_", "update", "transform", "reset", "__spec_class_"))))
+    return out, desc
+
+
+def run_multibase(ctx, case):
+    cfg, uses = case["config"], case["uses"]
+    want = mb_run(cfg, uses, True)
+    got = mb_run(cfg, uses, False)
+    if got[0] != want[0]:
+        i = next(j for j, (x, y) in enumerate(zip(got[0], want[0])) if x != y)
+        ctx.fail(f"multibase|use_differs:{uses[i].split('(')[0].split(':')[0]}", case, f"uses {uses} on lazily bootstrapped classes: use #{i} {uses[i]} gave {got[0][i]!r}; eager gives {want[0][i]!r}")
+        return
+    if got[1] != want[1]:
+        ctx.fail("multibase|description", case, f"after {uses}: lazy classes {got[1]!r} differ from eager {want[1]!r}")
+        return
+    ctx.case(case, len(uses) >= 2 and uses[0].startswith("P"))
+
+
 def run_case(ctx, case):
+    if case["kind"] == "multibase":
+        return run_multibase(ctx, case)
     if case["kind"] == "seq":
         run_seq(ctx, case)
     else:
@@ -263,7 +335,7 @@ BOUNDS = {"quick": dict(seq=120, conc=50, double=False), "thorough": dict(seq=15
 
 
 def units(tier, seed):
-    out = [["seq", i] for i in range(4)] + [["conc_hyp", i] for i in range(6)]
+    out = [["seq", i] for i in range(4)] + [["conc_hyp", i] for i in range(6)] + [["multibase", i, 4] for i in range(4)]
     for si in range(len(SHAPES)):
         for shard in range(4):
             out.append(["single", si, shard, 4])
@@ -287,6 +359,17 @@ def run_unit(ctx, unit):
         run_given(ctx, lambda case: run_case(ctx, case), {"case": seq_case()}, b["seq"], ctx.seed * 1000 + unit[1])
     elif kind == "conc_hyp":
         run_given(ctx, lambda case: run_case(ctx, case), {"case": conc_case()}, b["conc"], ctx.seed * 1000 + 300 + unit[1])
+    elif kind == "multibase":
+        j = 0
+        maxlen = 3 if ctx.tier == "thorough" else 2
+        for cfg in mb_configs():
+            for n in range(1, maxlen + 1):
+                for uses in itertools.permutations(MB_USES, n):
+                    j += 1
+                    if j % unit[2] != unit[1]:
+                        continue
+                    run_multibase(ctx, {"kind": "multibase", "config": cfg, "uses": list(uses)})
+        ctx.count("multibase_shards_completed")
     elif kind == "single":
         wd, triggers = SHAPES[unit[1]]
         total = _count(wd, triggers, False)
